@@ -12,6 +12,9 @@ func TestC05(t *testing.T) { runProp(t, "C05") }
 func TestC06(t *testing.T) { runProp(t, "C06") }
 func TestC08(t *testing.T) { runProp(t, "C08") }
 func TestC09(t *testing.T) { runProp(t, "C09") }
+func TestC10(t *testing.T) { runProp(t, "C10") }
+func TestC11(t *testing.T) { runProp(t, "C11") }
+func TestC12(t *testing.T) { runProp(t, "C12") }
 
 // TestReplay re-runs one saved case through the property's oracle, bypassing rapid.
 func TestReplay(t *testing.T) {
